@@ -22,6 +22,8 @@ var c14templates = []string{
 	`<%= for (k, v) in items { %><%= k %>=<%= v %>;<% } %><%= items[0] %>`,
 	`<% let s = "" %><% for (x) in items { %><% s = s + x %><% } %><%= s %>`,
 	`<%= raw("<i>") %><%= "<i>" %><%= n + 1 %><%= !missing %>`,
+	`<%= name ~= "^g0" %><%= name ~= "1$" %><%= "ZAZ" ~= "A" %><%= "ZAZ" ~= "^A" %>`,
+	`<%= for (x) in items { %><%= x ~= "a" %><%= x ~= "[0-9]" %>,<% } %>`,
 }
 
 func c14ctx(parent *plush.Context, g int) *plush.Context {
